@@ -205,6 +205,35 @@ func e2eRefusals(c *e2eCtx) error {
 			proj.WriteConfig(s.dir, s.cfg)
 			return err == nil
 		}, false},
+		{"changed-file-broken-by-unterminated-tail", []string{"track"}, func(s *scenario, r *rand.Rand) bool {
+			// the only change of one file is text after its final newline (a stray brace, no trailing
+			// newline) that makes it unparsable; precision 1 (blame sees the line; at precision 2/3 the
+			// unterminated last line is the recorded finding D-C04-2)
+			if s.cfg.Old == "INIT" {
+				return false
+			}
+			t := map[string]string{}
+			done := false
+			for _, k := range sortedKeys(s.newTree) {
+				v := s.newTree[k]
+				t[k] = v
+				if !done && strings.HasSuffix(k, ".go") && strings.HasPrefix(k, "pkg/") && !strings.HasSuffix(k, "_test.go") && strings.HasSuffix(v, "}\n") &&
+					eligible(k, s.cfg) && s.oldTree[k] == v {
+					t[k] = v + "}"
+					done = true
+				}
+			}
+			if !done {
+				return false
+			}
+			if _, err := proj.Commit(s.dir, t, 1700000200, "stray brace at EOF"); err != nil {
+				return false
+			}
+			cfg := s.cfg
+			cfg.Precision = 1
+			s.cfg = cfg
+			return proj.WriteConfig(s.dir, cfg) == nil
+		}, false},
 		{"no-main-package", []string{"track"}, func(s *scenario, r *rand.Rand) bool {
 			t := map[string]string{}
 			for k, v := range s.newTree {
@@ -286,6 +315,19 @@ func e2eRefusals(c *e2eCtx) error {
 		}, true},
 		{"patch-without-markers", []string{"patch"}, func(s *scenario, r *rand.Rand) bool { return true }, true},
 		{"clean-without-artefacts", []string{"clean"}, func(s *scenario, r *rand.Rand) bool { return true }, true},
+		{"patch-without-markers-after-unformatted-edit", []string{"patch"}, func(s *scenario, r *rand.Rand) bool {
+			// instrumented tree, then a hand edit that is valid Go but not in go/printer layout, no marker
+			if run := proj.RunGoat(c.goat, s.dir, nil, "track"); run.Exit != 0 {
+				return false
+			}
+			tree := proj.ReadTree(s.dir)
+			for _, k := range sortedKeys(tree) {
+				if strings.HasSuffix(k, ".go") && strings.Contains(tree[k], "// +goat:generate") && eligible(k, s.cfg) {
+					return os.WriteFile(filepath.Join(s.dir, k), []byte(tree[k]+"\nvar   HandEdit"+"   =   [...]int{1,2,\n3}\n"), 0644) == nil
+				}
+			}
+			return false
+		}, true},
 	}
 	// what the Lean plan (Cmd.plan) is told about each scenario: flag overrides of a valid
 	// environment and the refusal it must predict ("" = ok without writes)
@@ -293,36 +335,38 @@ func e2eRefusals(c *e2eCtx) error {
 		over   map[string]bool
 		reason string
 	}{
-		"not-a-go-module":                     {map[string]bool{"goMod": false}, "not-go-module"},
-		"not-a-git-repository":                {map[string]bool{"dotGit": false}, "not-git-repo"},
-		"missing-config-track":                {map[string]bool{"configExists": false}, "config-missing"},
-		"missing-config-patch":                {map[string]bool{"configExists": false}, "config-missing"},
-		"missing-config-clean":                {map[string]bool{"configExists": false}, "config-missing"},
-		"invalid-granularity":                 {map[string]bool{"configValid": false}, "config-invalid"},
-		"invalid-precision":                   {map[string]bool{"configValid": false}, "config-invalid"},
-		"invalid-datatype":                    {map[string]bool{"configValid": false}, "config-invalid"},
-		"invalid-printer-mode":                {map[string]bool{"configValid": false}, "config-invalid"},
-		"malformed-yaml":                      {map[string]bool{"configParses": false}, "config-invalid"},
-		"init-existing-config":                {map[string]bool{}, "config-exists"},
-		"init-invalid-granularity":            {map[string]bool{"force": true, "initFlagsValid": false}, "config-invalid"},
-		"init-invalid-precision":              {map[string]bool{"force": true, "initFlagsValid": false}, "config-invalid"},
-		"init-invalid-datatype-nofile":        {map[string]bool{"configExists": false, "initFlagsValid": false}, "config-invalid"},
-		"unresolvable-old-revision":           {map[string]bool{"oldResolves": false}, "old-unresolvable"},
-		"unresolvable-new-revision":           {map[string]bool{"newResolves": false}, "new-unresolvable"},
-		"new-revision-not-head":               {map[string]bool{"newIsHead": false}, "new-not-head"},
-		"uncommitted-change":                  {map[string]bool{"worktreeClean": false}, "uncommitted"},
-		"staged-change":                       {map[string]bool{"worktreeClean": false}, "uncommitted"},
-		"staged-new-file":                     {map[string]bool{"worktreeClean": false}, "uncommitted"},
-		"already-instrumented":                {map[string]bool{"generatedExists": true}, "already-instrumented"},
-		"changed-file-does-not-parse":         {map[string]bool{"changedFilesParse": false}, "parse-error"},
-		"no-main-package":                     {map[string]bool{"hasMain": false}, "no-main"},
-		"no-main-package-patch":               {map[string]bool{"hasMain": false}, "no-main"},
-		"nothing-to-instrument":               {map[string]bool{"hasPoints": false}, ""},
-		"nothing-to-instrument-comments-only": {map[string]bool{"hasPoints": false}, ""},
-		"clean-unparsable-marked-file":        {map[string]bool{"changedFilesParse": false, "generatedExists": true}, "parse-error"},
-		"patch-unparsable-marked-file":        {map[string]bool{"changedFilesParse": false, "generatedExists": true}, "parse-error"},
-		"patch-without-markers":               {map[string]bool{"hasMarkers": false}, ""},
-		"clean-without-artefacts":             {map[string]bool{"hasMarkers": false}, ""},
+		"not-a-go-module":                              {map[string]bool{"goMod": false}, "not-go-module"},
+		"not-a-git-repository":                         {map[string]bool{"dotGit": false}, "not-git-repo"},
+		"missing-config-track":                         {map[string]bool{"configExists": false}, "config-missing"},
+		"missing-config-patch":                         {map[string]bool{"configExists": false}, "config-missing"},
+		"missing-config-clean":                         {map[string]bool{"configExists": false}, "config-missing"},
+		"invalid-granularity":                          {map[string]bool{"configValid": false}, "config-invalid"},
+		"invalid-precision":                            {map[string]bool{"configValid": false}, "config-invalid"},
+		"invalid-datatype":                             {map[string]bool{"configValid": false}, "config-invalid"},
+		"invalid-printer-mode":                         {map[string]bool{"configValid": false}, "config-invalid"},
+		"malformed-yaml":                               {map[string]bool{"configParses": false}, "config-invalid"},
+		"init-existing-config":                         {map[string]bool{}, "config-exists"},
+		"init-invalid-granularity":                     {map[string]bool{"force": true, "initFlagsValid": false}, "config-invalid"},
+		"init-invalid-precision":                       {map[string]bool{"force": true, "initFlagsValid": false}, "config-invalid"},
+		"init-invalid-datatype-nofile":                 {map[string]bool{"configExists": false, "initFlagsValid": false}, "config-invalid"},
+		"unresolvable-old-revision":                    {map[string]bool{"oldResolves": false}, "old-unresolvable"},
+		"unresolvable-new-revision":                    {map[string]bool{"newResolves": false}, "new-unresolvable"},
+		"new-revision-not-head":                        {map[string]bool{"newIsHead": false}, "new-not-head"},
+		"uncommitted-change":                           {map[string]bool{"worktreeClean": false}, "uncommitted"},
+		"staged-change":                                {map[string]bool{"worktreeClean": false}, "uncommitted"},
+		"staged-new-file":                              {map[string]bool{"worktreeClean": false}, "uncommitted"},
+		"already-instrumented":                         {map[string]bool{"generatedExists": true}, "already-instrumented"},
+		"changed-file-does-not-parse":                  {map[string]bool{"changedFilesParse": false}, "parse-error"},
+		"no-main-package":                              {map[string]bool{"hasMain": false}, "no-main"},
+		"no-main-package-patch":                        {map[string]bool{"hasMain": false}, "no-main"},
+		"nothing-to-instrument":                        {map[string]bool{"hasPoints": false}, ""},
+		"nothing-to-instrument-comments-only":          {map[string]bool{"hasPoints": false}, ""},
+		"clean-unparsable-marked-file":                 {map[string]bool{"changedFilesParse": false, "generatedExists": true}, "parse-error"},
+		"patch-unparsable-marked-file":                 {map[string]bool{"changedFilesParse": false, "generatedExists": true}, "parse-error"},
+		"patch-without-markers":                        {map[string]bool{"hasMarkers": false}, ""},
+		"patch-without-markers-after-unformatted-edit": {map[string]bool{"hasMarkers": false, "generatedExists": true}, ""},
+		"changed-file-broken-by-unterminated-tail":     {map[string]bool{"changedFilesParse": false}, "parse-error"},
+		"clean-without-artefacts":                      {map[string]bool{"hasMarkers": false}, ""},
 	}
 	flagOrder := []string{"goMod", "dotGit", "configExists", "configParses", "configValid", "force", "initFlagsValid", "generatedExists", "isInit",
 		"worktreeClean", "oldResolves", "newResolves", "newIsHead", "changedFilesParse", "hasMain", "hasPoints", "hasMarkers"}
